@@ -188,3 +188,106 @@ for _pt, _proto, _rad in (("small", "small-electric-pole", 2.5), ("medium", "med
                                                                               ("grid_pole", _plc(True, _proto)))),
                                             "power_poles": ty.TConcrete([])}},
         properties=("C09", "C18"), min_obligations=1, no_replay=True, note=f"--power-poles {_pt}; plan of 3 placements"))
+
+
+# =================================================================================================
+# ExpressionLowerer._extract_coordinate: a coordinate of place() is the integer its expression denotes at compile time whenever
+# _try_extract_const_value (contract above) finds one — and then the nodes that computed it are taken out of the blueprint —
+# otherwise the lowered reference itself (a position left to the layout).
+# IntegerLayoutEngine._identify_fixed_positions / _create_position_variables (bounded stand-in, real objects incl. a real
+# CP-SAT model): a user-placed entity is fixed at the integer tile the user gave, a grid pole at the tile under its centre, every
+# other entity is free in [0, max_coord]; a fixed entity's two CP-SAT variables have exactly that one value in their domain (so NO
+# solver outcome can move it), a free one the full range.
+# =================================================================================================
+XC = {}
+
+
+def _xc_lower(ex, a):
+    XC.setdefault("lowered", []).append(a.expr)
+    return ghost(a.expr, "lowered", _VREF)
+
+
+def _xc_const(ex, a):
+    return ghost(ex.args_ns.coord_expr, "const", ty.TOpt(ty.Int))
+
+
+def _xc_post(a, res):
+    low = a.coord_expr._fields.get("@lowered")
+    c = a.coord_expr._fields.get("@const")
+    if len(XC.get("lowered", [])) != 1:
+        return False
+    if c is not None:
+        if isinstance(res, SObj) or res is None:
+            return False
+        return And(ops.eq(res, c), len(XC.get("suppressed", [])) == 1 and XC["suppressed"][0] is low)
+    return res is low and not XC.get("suppressed")
+
+
+CONTRACTS.append(Contract(
+    qualname=EL + "_extract_coordinate", params={"self": ty.TObj("ExpressionLowerer", only=("ExpressionLowerer",)), "coord_expr": ty.TObj("Expr", only=("NumberLiteral", "BinaryOp", "IdentifierExpr"))},
+    requires=[("(reset capture)", lambda a: XC.clear() or True)],
+    ensures=[("the compile-time value when there is one (its nodes suppressed), else the lowered reference", _xc_post)],
+    uses={"ExpressionLowerer.lower_expr": Contract(qualname=EL + "lower_expr", params={"self": _OPQ, "expr": _OPQ}, effect=_xc_lower, verify=False, note="the lowered value of the expression"),
+          "ExpressionLowerer._try_extract_const_value": Contract(qualname=EL + "_try_extract_const_value", params={"self": _OPQ, "value_ref": _OPQ}, effect=_xc_const, verify=False,
+                                                                 note="proved above: the S1 value of a constant tree, None otherwise"),
+          "ExpressionLowerer._suppress_value_ref_materialization": Contract(qualname=EL + "_suppress_value_ref_materialization", params={"self": _OPQ, "value_ref": _OPQ},
+                                                                            effect=lambda ex, a: XC.setdefault("suppressed", []).append(a.value_ref), verify=False,
+                                                                            note="marks the nodes behind the reference as not to be materialised")},
+    properties=("C09",), min_obligations=2, no_replay=True))
+
+FPQ = "dsl_compiler/src/layout/integer_layout_solver.py::IntegerLayoutEngine._identify_fixed_positions"
+
+
+def _fixed_post(a, res):
+    me = a.self
+    sc = me._scenario
+    if dict(me.fixed_positions) != sc["fixed"]:
+        return False
+    from ortools.sat.python import cp_model
+    model = cp_model.CpModel()
+    pos = me._create_position_variables(model, sc["max_coord"])
+    for eid in me.entity_ids:
+        x, y = pos[eid]
+        vs = model.Proto().variables
+        dx, dy = list(vs[x.Index()].domain), list(vs[y.Index()].domain)
+        if eid in sc["fixed"]:
+            fx, fy = sc["fixed"][eid]
+            if dx != [fx, fx] or dy != [fy, fy]:
+                return False
+        elif dx != [0, sc["max_coord"]] or dy != [0, sc["max_coord"]]:
+            return False
+    return set(pos) == set(me.entity_ids)
+
+
+fixed_positions = Contract(qualname=FPQ, params={"self": ty.TOpaque("engine")},
+                           ensures=[("user entities fixed at the user's tile, grid poles at the tile under their centre, the rest free; CP-SAT domains are exactly that", _fixed_post)],
+                           verify=False, properties=("C09", "C08"), note="evaluated on the real methods over an enumerated box (bounded stand-in)")
+CONTRACTS.append(fixed_positions)
+
+
+def fixed_positions_arg_sets():
+    import itertools
+    from dsl_compiler.src.layout.integer_layout_solver import IntegerLayoutEngine
+    from dsl_compiler.src.layout.layout_plan import LayoutPlan
+
+    class _Diag:
+        def info(self, *a, **k):
+            pass
+        warning = error = info
+
+    out = []
+    coords = (0, 1, 7, 40, 199)
+    for (ux, uy), (fw, fh), pole_c, free_has_pos in itertools.product(itertools.product(coords, (0, 3, 120)), ((1, 1), (2, 2), (3, 3)), ((6.5, 6.5), (12.0, 4.0), (0.5, 30.5)), (False, True)):
+        plan = LayoutPlan()
+        plan.create_and_add_placement(ir_node_id="user", entity_type="small-lamp", position=(ux, uy), footprint=(fw, fh), role="user_entity", debug_info={}, user_specified_position=True)
+        pw = 2 if pole_c == (12.0, 4.0) else 1
+        plan.create_and_add_placement(ir_node_id="pole", entity_type="medium-electric-pole" if pw == 1 else "substation", position=pole_c, footprint=(pw, pw), role="power_pole",
+                                      debug_info={}, fixed_position=True)
+        plan.create_and_add_placement(ir_node_id="free", entity_type="arithmetic-combinator", position=((5, 5) if free_has_pos else None), footprint=(1, 2), role="arithmetic", debug_info={})
+        eng = object.__new__(IntegerLayoutEngine)
+        eng.entity_placements, eng.diagnostics = plan.entity_placements, _Diag()
+        eng.entity_ids = sorted(plan.entity_placements)
+        fixed = {"user": (ux, uy), "pole": (int(round(pole_c[0] - pw / 2.0)), int(round(pole_c[1] - pw / 2.0)))}
+        eng._scenario = {"fixed": fixed, "max_coord": 200}
+        out.append({"self": eng})
+    return out
